@@ -131,7 +131,7 @@ def main():
             p = cand[rng.randrange(len(cand))]
             pts.append(("tile-feature", float(p[1]), float(p[0]) % TWOPI))
         return pts
-    depths = [0, 1, 2, 3, 5, 8, 12] if h.deep else [0, 1, 2, 4, 9]
+    depths = [0, 1, 2, 3, 5, 8, 12, 16, 19, 22] if h.deep else [0, 1, 2, 4, 9, 14, 18, 22]
     TOL = 1e-9
     for kind, lat, lon in points():
         for nm, cs in systems:
@@ -152,6 +152,8 @@ def main():
                     break
                 prev = pos
                 if d >= 1 and d in depths:
+                    # the oracle's own rounding grows as the tile shrinks (normal of two corners ~width apart): allow for it
+                    TOL = 1e-9 + 2e-15 / (math.pi / 2 / 2 ** d)
                     s = inside_score(t, (lon, lat))
                     if s < -TOL:
                         bad = f"depth {d}: the returned tile {pos} does not contain the point (it is {-s:.3g} rad outside one of its edges)"
@@ -220,7 +222,9 @@ def main():
                         # … and the same question asked again with the longitude on other 2π branches (same process, same tile)
                         for kk in (-1, 1, 0, 2):
                             t2, x2, y2 = toast.toast_pixel_for_point(d, lat, lon + kk * TWOPI, coordsys=cs)
-                            if tuple(t2.pos) != tuple(t.pos) or abs(float(x2) - float(x)) > 1e-3 or abs(float(y2) - float(y)) > 1e-3:
+                            # the same tile, and a position that still meets the 2-pixel bound (the fit is done in raw longitudes, so
+                            # the fractional position itself moves by ~0.01 px between branches: that is within the statement)
+                            if tuple(t2.pos) != tuple(t.pos) or abs(float(x2) - j_) > 2.0 or abs(float(y2) - i_) > 2.0:
                                 h.violation("pixel:period", f"{nm} system, depth {d}, point (lat {lat!r}, lon {lon!r}): asked again with lon + {kk}·2π the pixel lookup answers "
                                             f"{tuple(t2.pos)} ({float(x2):.3f}, {float(y2):.3f}) instead of {tuple(t.pos)} ({float(x):.3f}, {float(y):.3f})",
                                             input={"lat": lat, "lon": lon, "system": nm, "depth": d, "turns": kk})
